@@ -1302,3 +1302,56 @@ func isUint64(t types.Type) bool {
 	b, ok := t.Underlying().(*types.Basic)
 	return ok && b.Kind() == types.Uint64
 }
+
+// helperTrueFacts: cf says that a boolean function of the repository returned cf.Want. When exactly one return of that
+// function can produce that value, the facts that hold at it (the branch facts dominating the return, and for a
+// short-circuit result the facts of its operands) hold in the caller too; they are returned in the callee's frame
+// together with the substitution parameter -> argument.
+func helperTrueFacts(cf condFact, depth int) ([]condFact, map[ssa.Value]ssa.Value) {
+	if cf.Call == nil || depth > 2 {
+		return nil, nil
+	}
+	sc := cf.Call.Common().StaticCallee()
+	if sc == nil || sc.Blocks == nil || sc.Pkg == nil || !strings.HasPrefix(sc.Pkg.Pkg.Path(), modPath) || sc.Signature.Results().Len() != 1 {
+		return nil, nil
+	}
+	if bt, ok := sc.Signature.Results().At(0).Type().Underlying().(*types.Basic); !ok || bt.Kind() != types.Bool {
+		return nil, nil
+	}
+	var rets []*ssa.Return
+	for _, b := range sc.Blocks {
+		ret, ok := b.Instrs[len(b.Instrs)-1].(*ssa.Return)
+		if !ok || b.Comment == "recover" {
+			continue
+		}
+		if k, ok := resolve(ret.Results[0]).(*ssa.Const); ok && k.Value != nil && k.Value.Kind() == constant.Bool && constant.BoolVal(k.Value) != cf.Want {
+			continue // this return yields the other value
+		}
+		rets = append(rets, ret)
+	}
+	if len(rets) != 1 {
+		return nil, nil
+	}
+	ret := rets[0]
+	var out []condFact
+	for _, b := range sc.Blocks {
+		if ifOf(b) == nil {
+			continue
+		}
+		for s := 0; s < 2; s++ {
+			if edgeDominates(edge{b, s}, ret.Block()) {
+				out = append(out, expandFact(edgeFact(edge{b, s}), 0)...)
+			}
+		}
+	}
+	if _, isConst := resolve(ret.Results[0]).(*ssa.Const); !isConst {
+		out = append(out, expandFact(factOf(resolve(ret.Results[0]), cf.Want), 0)...)
+	}
+	subst := map[ssa.Value]ssa.Value{}
+	for i, prm := range sc.Params {
+		if i < len(cf.Call.Common().Args) {
+			subst[prm] = cf.Call.Common().Args[i]
+		}
+	}
+	return out, subst
+}
